@@ -4,6 +4,7 @@ pub mod c04;
 pub mod c05;
 pub mod c06;
 pub mod c07;
+pub mod c08;
 pub mod c09;
 pub mod c10;
 pub mod c11;
@@ -29,6 +30,7 @@ pub fn all() -> Vec<Check> {
     v.extend(c05::checks());
     v.extend(c06::checks());
     v.extend(c07::checks());
+    v.extend(c08::checks());
     v.extend(c09::checks());
     v.extend(c10::checks());
     v.extend(c11::checks());
